@@ -24,6 +24,7 @@ use std::ops::Range;
 use std::os::unix::fs::symlink;
 use std::path::{Path, PathBuf};
 use std::sync::Arc;
+use std::sync::atomic::{AtomicBool, Ordering};
 use std::thread;
 
 use cfg_if::cfg_if;
@@ -116,6 +117,7 @@ fn queue_file_range(
     range: Range<u64>,
     pool: &ThreadPool,
     status_channel: &Arc<dyn StatusUpdater>,
+    failed: &Arc<AtomicBool>,
 ) -> Result<u64> {
     let len = range.end - range.start;
     let bsize = handle.config.block_size;
@@ -124,6 +126,7 @@ fn queue_file_range(
     for blkn in 0..blocks {
         let harc = handle.clone();
         let stat_tx = status_channel.clone();
+        let failed = failed.clone();
         let bytes = cmp::min(len - (blkn * bsize), bsize);
         let off = range.start + (blkn * bsize);
 
@@ -135,12 +138,13 @@ fn queue_file_range(
                 }
                 Err(e) => {
                     error!("Error copying: aborting.");
+                    failed.store(true, Ordering::SeqCst);
                     stat_tx.send(StatusUpdate::Error(XcpError::CopyError(e.to_string())))
                 }
             };
             // Whoever holds the last reference finalises the file, so
             // that a failure there is reported rather than just logged.
-            let stat_result = stat_result.and_then(|_| finalise_if_last(harc, &stat_tx));
+            let stat_result = stat_result.and_then(|_| finalise_if_last(harc, &stat_tx, &failed));
             if let Err(e) = stat_result {
                 let msg = format!("Failed to send status update message. This should not happen; aborting. Error: {}", e);
                 error!("{}", msg);
@@ -153,10 +157,11 @@ fn queue_file_range(
 
 // Finalise the copy (permissions, timestamps, sync) if this is the
 // last reference to the handle, reporting any failure.
-fn finalise_if_last(harc: Arc<CopyHandle>, status_channel: &Arc<dyn StatusUpdater>) -> Result<()> {
+fn finalise_if_last(harc: Arc<CopyHandle>, status_channel: &Arc<dyn StatusUpdater>, failed: &Arc<AtomicBool>) -> Result<()> {
     if let Some(handle) = Arc::into_inner(harc) {
         if let Err(e) = handle.finalise() {
             error!("Error finalising copy: aborting.");
+            failed.store(true, Ordering::SeqCst);
             status_channel.send(StatusUpdate::Error(XcpError::CopyError(e.to_string())))?;
         }
     }
@@ -169,6 +174,7 @@ fn queue_file_blocks(
     pool: &ThreadPool,
     status_channel: &Arc<dyn StatusUpdater>,
     config: &Arc<Config>,
+    failed: &Arc<AtomicBool>,
 ) -> Result<u64> {
     let handle = CopyHandle::new(source, dest, config)?;
     let len = handle.metadata.len();
@@ -186,7 +192,7 @@ fn queue_file_blocks(
     let harc = Arc::new(handle);
 
     let queue_whole_file = || {
-        queue_file_range(&harc, 0..len, pool, status_channel)
+        queue_file_range(&harc, 0..len, pool, status_channel, failed)
     };
 
     let queued = if probably_sparse(&harc.infd)? {
@@ -194,7 +200,7 @@ fn queue_file_blocks(
             let sparse_map = merge_extents(extents)?;
             let mut queued = 0;
             for ext in sparse_map {
-                queued += queue_file_range(&harc, ext.into(), pool, status_channel)?;
+                queued += queue_file_range(&harc, ext.into(), pool, status_channel, failed)?;
             }
             queued
         } else {
@@ -205,7 +211,7 @@ fn queue_file_blocks(
             let mut pos = 0;
             while pos < len {
                 let (next_data, next_hole) = next_sparse_segments(&harc.infd, &harc.outfd, pos)?;
-                queued += queue_file_range(&harc, next_data..next_hole, pool, status_channel)?;
+                queued += queue_file_range(&harc, next_data..next_hole, pool, status_channel, failed)?;
                 pos = next_hole;
             }
             queued
@@ -234,11 +240,15 @@ fn dispatch_worker(file_q: cbc::Receiver<Operation>, stats: &Arc<dyn StatusUpdat
         // calculate it from ulimits.
         .queue_len(128)
         .build();
+    // Set by a block job that fails: the jobs can only send an Error
+    // update, which not every StatusUpdater passes on, so the failure
+    // must also be returned from here.
+    let failed = Arc::new(AtomicBool::new(false));
     for op in file_q {
         match op {
             Operation::Copy(from, to) => {
                 info!("Dispatch[{:?}]: Copy {:?} -> {:?}", thread::current().id(), from, to);
-                let r = queue_file_blocks(&from, &to, &copy_pool, stats, &config);
+                let r = queue_file_blocks(&from, &to, &copy_pool, stats, &config, &failed);
                 if let Err(e) = r {
                     stats.send(StatusUpdate::Error(XcpError::CopyError(e.to_string())))?;
                     error!("Dispatcher: Error copying {:?} -> {:?}.", from, to);
@@ -273,6 +283,10 @@ fn dispatch_worker(file_q: cbc::Receiver<Operation>, stats: &Arc<dyn StatusUpdat
 
     copy_pool.join();
     info!("Pool complete");
+
+    if failed.load(Ordering::SeqCst) {
+        return Err(XcpError::CopyError("Error copying file blocks".to_string()).into());
+    }
 
     Ok(())
 }
